@@ -1,4 +1,4 @@
-//go:build !skip_c15
+//go:build !skip_c15_e2e
 
 package main
 
